@@ -175,6 +175,8 @@ impl RtpsWriterProxy {
         if a_seq_num > self.highest_received_change_sn {
             self.highest_received_change_sn = a_seq_num;
         }
+        // Fragments of a change that is no longer expected must not be reported as pending
+        self.frag_buffer.retain(|f| f.writer_sn() != a_seq_num);
     }
 
     pub fn lost_changes_update(&mut self, first_available_seq_num: SequenceNumber) {
@@ -184,6 +186,9 @@ impl RtpsWriterProxy {
         // change.status := LOST;
         // }
         self.first_available_seq_num = first_available_seq_num;
+        // Fragments of lost changes must not be reported as pending
+        self.frag_buffer
+            .retain(|f| f.writer_sn() >= first_available_seq_num);
     }
 
     pub fn missing_changes(&self) -> impl Iterator<Item = SequenceNumber> {
